@@ -993,7 +993,10 @@ func (w *Proxy) checkProbe(k int) {
 		if !overflow {
 			// ... or turned away by MOSN itself, without any attempt to send it and without any connect having been
 			// refused, although every host accepts connections: a pool that is of no use any more
-			if w.probeOK() && len(r.Replies) >= 1 && r.Replies[0].Tok == "" && !r.Replies[0].Success && len(r.Upstream) == 0 && w.N.DialsRefused == w.probeRefusedBase && w.N.DialsBlackholed == 0 {
+			// (an answer that comes no earlier than the request's timeout may be just that: a timeout while the
+			// scheduler held the pool's connect back)
+			early := len(r.Replies) >= 1 && r.Replies[0].At-r.SentAt < w.effGlobal(r) && (w.P.TryMs == 0 || r.Replies[0].At-r.SentAt < time.Duration(w.P.TryMs)*time.Millisecond)
+			if w.probeOK() && early && r.Replies[0].Tok == "" && !r.Replies[0].Success && len(r.Upstream) == 0 && w.N.DialsRefused == w.probeRefusedBase && w.N.DialsBlackholed == 0 {
 				w.S.Violate("C09", "pool_unusable_at_idle", "at idle, with every host accepting connections, fresh request req#%d was answered by MOSN itself (status %d) within 3 s without having been sent to any host and without any connect having failed: a pool slot no longer reflects the state of its connection", r.Idx, r.Replies[0].Status)
 				return
 			}
